@@ -29,9 +29,10 @@ def main(argv):
     rules = []
     for modname in ent["modules"]:
         mod = importlib.import_module("analysis." + modname)
-        rules.extend(mod.RULES)
+        attr = ent.get("rules_attr", "RULES")
+        rules.extend(getattr(mod, attr))
         if tier == "thorough":
-            rules.extend(getattr(mod, "THOROUGH_RULES", []))
+            rules.extend(getattr(mod, "THOROUGH_" + attr, []))
     return run_check(pid, rules, tier=tier, level=ent.get("level", "other"),
                      explanation=ent["explanation"], trusted_base=ent.get("trusted_base", []),
                      exhaustive=ent.get("exhaustive", False), min_instances=ent.get("min_instances", 1))
